@@ -1465,7 +1465,8 @@ func c14FreshLists(p *Prog, r *Report, rule string) {
 			lkeys = append(lkeys, lp)
 		}
 		sort.Strings(lkeys)
-		for _, lp := range lkeys {
+		for qi := 0; qi < len(lkeys); qi++ {
+			lp := lkeys[qi]
 			n++
 			cons := fmt.Sprintf("%s#list %s is owned by the caller", k, lists[lp])
 			bad := ""
@@ -1479,6 +1480,14 @@ func c14FreshLists(p *Prog, r *Report, rule string) {
 					if f.rawPath(l) == lp {
 						rhs := ast.Unparen(as.Rhs[i])
 						okRhs := false
+						// the result binding of a spliced-in helper: the helper's own list is judged in its place
+						if rp := f.rawPath(rhs); gn.Synth != "" && rp != "" && rp != lp {
+							if _, seen := lists[rp]; !seen {
+								lists[rp] = types.ExprString(rhs) + " (of a helper)"
+								lkeys = append(lkeys, rp)
+							}
+							continue
+						}
 						switch x := rhs.(type) {
 						case *ast.Ident:
 							okRhs = isNilIdent(info, x)
@@ -2094,18 +2103,33 @@ func c10FreshMeasurements(p *Prog, r *Report, rule, which string) {
 // loopVisitsEvery checks that the loop of fi over the given collection calls a function matching pred in every
 // iteration and is never left early: from the start of an iteration every path to the next iteration passes
 // the call, and no path leaves the loop body except through the loop head.
-func loopVisitsEvery(p *Prog, fi *FuncInfo, isCollection func(e ast.Expr) bool, pred callPred) (found bool, bad string) {
-	f := p.FlatOf(fi)
+func loopVisitsEvery(p *Prog, fi *FuncInfo, isCollection func(e ast.Expr) bool, pred callPred, keep ...string) (found bool, bad string) {
+	// (helpers are spliced in: the loop may sit in one; infeasible branches of a shared helper are pruned by
+	// nil-facts; calls of the functions in keep stay calls)
+	f := p.FlatInlExcept(fi, keep...)
 	var loop *ast.RangeStmt
-	for _, rs := range rangeLoops(fi.Decl.Body) {
-		if isCollection(rs.X) {
-			loop = rs
+	scopes := []*ast.BlockStmt{fi.Decl.Body}
+	seenBody := map[string]bool{}
+	for _, ii := range f.Inl {
+		if h := p.Func(ii.Callee); h != nil && h.Decl != nil && h.Decl.Body != nil && !seenBody[ii.Callee] {
+			seenBody[ii.Callee] = true
+			scopes = append(scopes, h.Decl.Body)
+		}
+	}
+	for _, sc := range scopes {
+		for _, rs := range rangeLoops(sc) {
+			if isCollection(rs.X) {
+				loop = rs
+			}
 		}
 	}
 	if loop == nil {
 		return false, ""
 	}
 	head := f.loopHead(loop)
+	if head < 0 {
+		return false, ""
+	}
 	calls := setOf(f.NodesMust(pred))
 	inLoop := func(n *GNode) bool {
 		return n.Ast != nil && n.Ast.Pos() >= loop.Body.Pos() && n.Ast.End() <= loop.Body.End()
@@ -2116,7 +2140,8 @@ func loopVisitsEvery(p *Prog, fi *FuncInfo, isCollection func(e ast.Expr) bool, 
 			start = append(start, e.To)
 		}
 	}
-	reach := f.Reach(start, func(n *GNode) bool { return calls[n.ID] }, nil)
+	reachable := f.ReachNil([]int{f.Entry}, nil)
+	reach := f.Reach(start, func(n *GNode) bool { return calls[n.ID] || !reachable[n.ID] }, nil)
 	for id := range reach {
 		n := f.Nodes[id]
 		if id == head {
@@ -2527,7 +2552,7 @@ func c19GetAllDecodesEverything(p *Prog, r *Report, rule string) {
 		}
 		return true
 	})
-	found, bad := loopVisitsEvery(p, fi, func(e ast.Expr) bool { return items != nil && objOf(info, e) == items }, p.keysPred(kUnmarshal))
+	found, bad := loopVisitsEvery(p, fi, func(e ast.Expr) bool { return items != nil && objOf(info, e) == items }, p.keysPred(kUnmarshal), kUnmarshal)
 	if !found {
 		r.Undecided(rule, k+"#every-record-decoded", p.pos(fi.Decl), "no range loop over the records read")
 		return
